@@ -400,4 +400,29 @@ theorem paths_pause_after_report :
 
 end paths
 
+/-! round 4: the dialers of the http guns, the grpc/json line decoder -/
+
+/-- `NewDNSCachingDialer` builds no error from the error of its dial (`Model.C10.cachingDial` is the identity); the
+one error it does build wraps what `SplitHostPort` said about an address that was dialled successfully -/
+theorem dnsCachingDialer_returns_dial_error_as_is :
+    Gen.GrpcStatus.dialWrapsDNSCachingDialer.all (fun w => w.2 != "DialContext") = true := by decide
+
+/-- `newConnectDialFunc` wraps the error of its dial once, with `errors.WithStack` (`Model.C10.connectDial` = one
+`causer` around it) -/
+theorem connectDialFunc_wraps_dial_error :
+    (Gen.GrpcStatus.dialWrapsConnectDialFunc.filter (fun w => w.2 == "DialContext")) = [("WithStack", "DialContext")] := by
+  decide
+
+/-- `decodeAmmo` unmarshals the line into a variable of its own and overwrites the pooled object by `Reset` — with the
+decoded fields, or with nothing when the line cannot be decoded (`Model.C10.deliver`); `Reset` assigns the WHOLE struct
+(`AmmoObj.reset`: also the id and the invalid flag) -/
+theorem decodeAmmo_eq :
+    Gen.GrpcStatus.decodeAmmoTarget = "local" ∧
+    Gen.GrpcStatus.decodeAmmoResets = ["\"\", \"\", nil, nil", "fresh.Tag, fresh.Call, fresh.Metadata, fresh.Payload"] ∧
+    Gen.GrpcStatus.srcGrpcAmmoReset = ["*v1 = Ammo{v2, v3, v4, v5, 0, false}"] := by decide
+
+/-- the instances' `Release` puts the ammo object back into the pool AS IT IS (`Model.C10.runAmmoPool`: the delivered
+object `a` itself goes back; the harness's pre-seeded pool states are the states a release leaves) -/
+theorem grpcProviderRelease_eq : Gen.GrpcStatus.srcGrpcProviderRelease = ["v1.Pool.Put(v2)"] := by decide
+
 end Pandora.Bridge.GrpcStatus
